@@ -189,6 +189,9 @@ class C05(Engine):
 				# exchange the contents of two sibling modules that one importer imports both (identity must not be a multiset of hashes)
 				c([op_run(), {'op': 'edit', 'm': 'src.sb', 'v': 1, 'dt': 10**9}, {'op': 'edit', 'm': 'src.sc', 'v': 0, 'dt': 10**9}, op_run()])
 				c([op_run(), {'op': 'edit', 'm': 'src.sb', 'v': 2, 'dt': 10**9}, op_run(), {'op': 'edit', 'm': 'src.sc', 'v': 2, 'dt': 10**9}, {'op': 'edit', 'm': 'src.sb', 'v': 1, 'dt': 10**9}, op_run()])
+		ex = pools.example_pool()
+		cases.append({'pool': ex, 'kind': 'canonical', 'ops': [op_run(), op_run(), {'op': 'edit', 'm': 'example.FW.string', 'v': 1, 'dt': 10**9}, op_run(), op_run(enabled=False)]})
+		cases.append({'pool': ex, 'kind': 'canonical', 'ops': [op_run(fault={'kind': 'crash@write', 'pick': 0.95, 'prefer': 'symbols', 'kmode': 'half'}), op_run(), {'op': 'clear'}, op_run()]})
 		# fault-enumeration pass: every cache write event x offsets, then a normal run
 		kmodes = ['0', '1', 'half', 'last']
 		for which in (0, 1):
